@@ -5,6 +5,7 @@
 package dirmodel
 
 import (
+	"bytes"
 	"encoding/json"
 	"fmt"
 	"os"
@@ -19,19 +20,19 @@ import (
 type Kind int
 
 const (
-	Absent Kind = iota
-	X           // valid: vendor1.com/cls, device x
-	XY          // valid: vendor1.com/cls, devices x and y
-	Y           // valid: vendor1.com/cls, device y
-	V2          // valid: vendor2.org/other, device x
-	Syn         // syntactically invalid
-	Sem         // parses, semantically invalid (device without edits)
-	Empty       // empty file
-	Dangling    // symbolic link whose target does not exist
-	LnX         // symbolic link to a valid Spec file (device x) kept outside the Spec directories
-	SchemaBad   // loads without a Spec validator, refused by the builtin schema (hook timeout -1): only for checks that install the schema
-	V3          // valid Spec of a third vendor whose class is the one of X (vendor3.net/cls, device x): a class shared by two vendors
-	HardX       // hard link to one valid Spec file (device x) per directory, kept outside the Spec directories: two such slots of a directory are two names of ONE file - and two definitions all the same
+	Absent    Kind = iota
+	X              // valid: vendor1.com/cls, device x
+	XY             // valid: vendor1.com/cls, devices x and y
+	Y              // valid: vendor1.com/cls, device y
+	V2             // valid: vendor2.org/other, device x
+	Syn            // syntactically invalid
+	Sem            // parses, semantically invalid (device without edits)
+	Empty          // empty file
+	Dangling       // symbolic link whose target does not exist
+	LnX            // symbolic link to a valid Spec file (device x) kept outside the Spec directories
+	SchemaBad      // loads without a Spec validator, refused by the builtin schema (hook timeout -1): only for checks that install the schema
+	V3             // valid Spec of a third vendor whose class is the one of X (vendor3.net/cls, device x): a class shared by two vendors
+	HardX          // hard link to one valid Spec file (device x) per directory, kept outside the Spec directories: two such slots of a directory are two names of ONE file - and two definitions all the same
 	NKinds
 )
 
@@ -208,10 +209,43 @@ func WriteSlot(root, dir, name string, k Kind) error {
 		}
 		return os.Link(target, p)
 	}
-	if fi, err := os.Lstat(p); err == nil && fi.Mode().IsRegular() {
-		_ = os.Remove(p) // never write through a name that may be a hard link to a shared file
+	want := Content(k, name, dir+"/"+name)
+	var err error
+	for attempt := 0; attempt < 3; attempt++ {
+		if fi, e := os.Lstat(p); e == nil && fi.Mode().IsRegular() {
+			_ = os.Remove(p) // never write through a name that may be a hard link to a shared file
+		}
+		if err = os.WriteFile(p, want, 0o644); err != nil {
+			continue
+		}
+		// the model state is a precondition the harness owes the library: read the slot back
+		if got, e := os.ReadFile(p); e == nil && bytes.Equal(got, want) {
+			return nil
+		} else if e != nil {
+			err = e
+		} else {
+			err = fmt.Errorf("slot %s/%s reads back with %d bytes instead of %d", dir, name, len(got), len(want))
+		}
 	}
-	return os.WriteFile(p, Content(k, name, dir+"/"+name), 0o644)
+	return err
+}
+
+// DiskMatches tells whether the regular-file slots of t hold, on disk, the content of their kind
+// (the first slot that does not is named). A harness asks this before it blames the library for
+// an answer that differs from the model.
+func (t *Tree) DiskMatches(root string) (bool, string) {
+	for d, fs := range t.Files {
+		for n, k := range fs {
+			if k == Absent || k == Dangling || k == LnX || k == HardX {
+				continue
+			}
+			got, err := os.ReadFile(filepath.Join(root, d, n))
+			if err != nil || !bytes.Equal(got, Content(k, n, d+"/"+n)) {
+				return false, fmt.Sprintf("%s/%s (%v, %d bytes on disk)", d, n, err, len(got))
+			}
+		}
+	}
+	return true, ""
 }
 
 // Materialise writes the whole tree under root (directories are created even if empty when listed in dirs).
